@@ -93,9 +93,48 @@ def h_offset_history(entry):
     return fn, types
 
 
+def h_frac_small(entry):
+    """Short fractions with EVERY digit value pinned per path (k = 1..3 digits, dot / comma): the scaling to microseconds is
+    exact for every one- and two-digit string and a thinned set of three-digit ones.  (The symbolic fraction cells decide the digit arithmetic over integers; a
+    scaling that goes through binary floating point is only visible on concrete values.)"""
+    import datetime
+    from dateutil.parser import isoparser
+    types = dict(k=int, v=int, comma=bool)
+
+    def fn(ctx, k, v, comma):
+        ctx.assume(S.within(k, 1, 3))
+        ctx.assume(S.within(v, 0, 999))
+        k = ctx.concrete(k)
+        ctx.assume(S.lt(v, 10 ** k))
+        if k == 3:
+            ctx.assume(S.eq(S.mod(v, 37), 1))        # three digits: a thinned set (27 values)
+        v, comma = ctx.concrete(v), ctx.concrete(comma)
+        if ctx.symbolic:
+            return None
+        with ctx.untraced():
+            digits = "%0*d" % (k, v)
+            want = int(digits.ljust(6, "0"))
+            text = "06:14:30" + ("," if comma else ".") + digits
+            p = isoparser()
+            if entry == "time":
+                got = p.parse_isotime(text)
+                ok = got == datetime.time(6, 14, 30, want)
+            elif entry == "bytes":
+                got = p.isoparse(("2017-11-27T" + text + "+01:00").encode("ascii"))
+                ok = got.replace(tzinfo=None) == datetime.datetime(2017, 11, 27, 6, 14, 30, want) and got.utcoffset() == datetime.timedelta(hours=1)
+            else:
+                got = p.isoparse("2017-11-27T" + text)
+                ok = got == datetime.datetime(2017, 11, 27, 6, 14, 30, want)
+            ctx.check(ok, "%s fraction %r parsed as %r, expected %d microseconds" % (entry, text, got, want), key="frac-small:%s" % entry)
+        return None
+    return fn, types
+
+
 def cells(tier):
     q = tier == "quick"
     cs = []
+    for entry in ("dt", "time", "bytes"):
+        cs.append(Cell("harness.c07", "h_frac_small", dict(entry=entry), budget_s=120))
     for entry in ("dt", "time", "tz"):
         cs.append(Cell("harness.c07", "h_offset_history", dict(entry=entry), budget_s=120))
 
